@@ -565,6 +565,10 @@ def check_C18(tier, seed):
         s['list_names'] = True
     cases = engine.run_family(rep, scns)
     engine.judge_cases(rep, cases, devs, what='program')
+    # on a caching parser: texts that differ only in the blanks inside a %...% name, list_names recorded for every call
+    scns = families.near_duplicate_name_sessions(seed + 6, 200 if quick else 2000)
+    cases = engine.run_family(rep, scns)
+    engine.judge_cases(rep, cases, devs, what='near-duplicate %name% texts on a caching parser')
     # lexer side
     lp = _lexparse()
     open_devs = [d for d in devs if d in lp.ALL_DEVIATIONS] + list(lp.IMPL_DETAIL)
@@ -884,6 +888,10 @@ def check_C11(tier, seed):
     scns = families.closure_sessions(seed + 3, 60 if quick else 600)
     cases = engine.run_family(rep, scns)
     engine.judge_cases(rep, cases, devs, what='eval history')
+    # results must not depend on how an equal number was spelled by an earlier call of the process (dict keys, str(), join ...)
+    scns = families.spelling_histories(seed + 4, 300 if quick else 3000)
+    cases = engine.run_family(rep, scns)
+    engine.judge_cases(rep, cases, devs, what='history of differently spelled equal numbers')
     rep.assumptions += ['random builtins are outside the property (their results depend on the global RNG by definition)',
                         'resuming a half-consumed list_names generator after an intervening call is not judged (the property speaks of '
                         'earlier calls)']
@@ -926,6 +934,11 @@ def check_C17(tier, seed):
                 i = vd['at'] - 1
                 rep.violation('cached session (%s) rejected at call %d (%s): %r' % (kind, vd['at'], vd['clause'], [(c['op'], c['text']) for c in sess[:i + 1]]),
                               {'cache': kind, 'calls': [(c['op'], c['text'], c['k']) for c in sess[:i + 1]], 'clause': vd['clause'], 'observed': sess[i]['obs']})
+    # the same text parsed several times and handed to eval as ast_names (with a retaining cache: one tree object under several names)
+    devs17 = engine.open_deviations()
+    scns = families.cached_ast_sessions(seed + 8, 200 if quick else 2000)
+    cases = engine.run_family(rep, scns)
+    engine.judge_cases(rep, cases, devs17, what='ast_names built from repeated parses')
     out = session.run_cache_sequences(seed, 400 if quick else 5000, 8)
     ncalls = 0
     for n, diffs in out:
